@@ -487,6 +487,29 @@ theorem wireR_afterConnect (proxy : Bool) : Spec WireR (afterConnect proxy) := b
       · exact ((spec_bind wire_po (wire_yieldConnected proxy) (fun _ =>
           spec_bind wire_po (spec_modS (fun s => by wire_leaf)) (fun _ => wire_runLoop))) s1).toR
 
+theorem wire_runLoopNoSel : Spec Wire runLoopNoSel := by
+  unfold runLoopNoSel
+  exact spec_tryC wire_po (spec_bind wire_po (wire_onLoopEnd _) (fun _ => wire_selClose)) wire_runFinally
+
+theorem wireR_afterConnectNoSel (proxy : Bool) : Spec WireR (afterConnectNoSel proxy) := by
+  unfold afterConnectNoSel
+  refine spec_bind wireR_po (spec_modS ?_) (fun _ => ?_)
+  · intro s; exact (by wire_leaf : Wire s _).toR
+  · intro s
+    show WireR s ((getS >>= _) s).state
+    rw [bind_ok (show getS s = .ok s s from rfl)]
+    have hw := wireR_writeRequest s
+    cases hwr : write s.cfg.request none s with
+    | err x s1 => rw [hwr] at hw; rw [bind_err hwr]; exact hw
+    | ok r s1 =>
+      rw [hwr] at hw; simp only [Res.state_ok] at hw
+      rw [bind_ok hwr]
+      refine wireR_po.trans hw ?_
+      split
+      · exact ((spec_bind wire_po wire_closeSocket (fun _ => wire_yieldEv _)) s1).toR
+      · exact ((spec_bind wire_po (wire_yieldConnected proxy) (fun _ =>
+          spec_bind wire_po (spec_modS (fun s => by wire_leaf)) (fun _ => wire_runLoopNoSel))) s1).toR
+
 theorem wireR_run : Spec WireR run := by
   unfold run
   refine spec_bind wireR_po (Spec.toR (wire_yieldEv _)) (fun _ => ?_)
@@ -495,6 +518,7 @@ theorem wireR_run : Spec WireR run := by
   · exact Spec.toR (wire_yieldEv _)
   · exact Spec.toR (wire_yieldEv _)
   · exact wireR_afterConnect _
+  · exact wireR_afterConnectNoSel _
 
 /-- **every plain write of a whole connection** is the upgrade request or a good frame -/
 theorem runAll_writes (cfg : Cfg) (react : React) (env : List EnvStep) (hv : cfg.v.closeArgs = true) :
